@@ -1,5 +1,6 @@
 import RedbModel.Model.KeyType
 import Driver.Util
+import Driver.KeyVal
 /-! Line driver for the key-type model (property C15). -/
 namespace Redb.Driver
 open Redb.Key
@@ -86,6 +87,15 @@ def keyStep (req obs : List String) : String :=
       let m := ordStr (cmp k x y)
       if [m] = obs then "ok" else s!"DIFF cmp model={m} impl={obs}"
     | _, _, _ => "bad-op"
+  -- value level (Driver/KeyVal.lean): `key enc <desc> <valtext> => <hex>`, `key vcmp <desc> <valtext> <valtext> => lt|eq|gt`
+  | ["enc", t, v] =>
+    match parseType t with
+    | some k => encStep k v obs
+    | none => "bad-op"
+  | ["vcmp", t, a, b] =>
+    match parseType t with
+    | some k => vcmpStep k a b obs
+    | none => "bad-op"
   | [which, t, a, b] =>
     if which ≠ "sep" ∧ which ≠ "bsep" then "bad-op" else
     match parseType t, ofHex a, ofHex b, obs with
